@@ -41,6 +41,11 @@ CHECKS = {
          "Every expression tree of depth <= 2 over all 30 opcodes with leaves {x,y} and the special constants (0,-0,1,-1,2,NaN,3.7; thorough adds 0.5,+-inf,denormal), shared sub-trees included, is built through the public constructors and, separately, as a Tree that is imported; the graph the context then holds is evaluated at an 11x11 grid of assignments and must equal (==) the operation-by-operation value of the un-rewritten expression wherever that stays finite; node identity on rebuild, import(export(n)) = n, Tree == and Hash agreement are checked on every tree; 1e5/1e6-node trees of three shapes are built, compared, hashed, imported, exported and dropped on a 256 KiB stack.",
          "Trusted: ref32; points where a zero reaches an op sensitive to the sign of zero are skipped (the property holds up to the sign of zero).",
          "DESIGN.md §4 C12"),
+ "C13": ("model_checking",
+         "exhaustive enumeration of remap sequences (builder API) x targets x dyadic points, imported tree vs. f64 substitution semantics",
+         "Every sequence of up to 3 (thorough 4) remaps from a 12-element alphabet (affine: translation, negative/non-uniform scale, 90-degree rotations, shear, general rotation; remap_xyz: permutation, non-linear, constant, free-variable, duplicated-axis and min/max expressions) is applied through the builder API to four targets (one with a free variable), to sub-trees before combination, and to one sub-tree shared under two different frames; the imported result is evaluated at 54 dyadic points and compared with the composed substitution (later remaps act on coordinates first), exactly where all entries are dyadic; collapse of consecutive affine remaps is checked structurally.",
+         "Trusted: f64 closure composition as the reference; builder API only (hand-built nested RemapAffine nodes are outside the claim).",
+         "DESIGN.md §4 C13"),
  "C15": ("model_checking",
          "bounded-exhaustive enumeration of programs x budgets; bytecode executed by a documentation-only interpreter and compared with the VM",
          "Every program of the C01 sets is serialised with Bytecode::new at budgets that force memory traffic and executed by an interpreter written only from the format documentation (opcode numbers by name from iter_ops); outputs must equal the VM's bit-for-bit and every structural promise (markers, word count, register/memory bounds, reserved register) is checked on every bytecode.",
